@@ -45,7 +45,7 @@ Proof.
   induction pre as [|p pre IH]; intros out r post H E; subst out.
   - cbn [app map tl] in H. destruct post as [|r' post]; cbn [map app] in H; congruence.
   - cbn [app] in H. destruct (pre ++ r :: post) as [|x rest] eqn:F; [destruct pre; discriminate|].
-    apply (IH (x :: rest) r post); [|exact F].
+    apply (IH (x :: rest) r post); [|symmetry; exact F].
     cbn [map tl app] in *. injection H as _ H. exact H.
 Qed.
 
@@ -90,7 +90,7 @@ Proof.
     + apply H48. split; [exact H1|]. split; [|exact H3].
       rewrite name_eqb_sym in C. eapply name_eqb_trans; eassumption.
     + apply Hno. apply (has_type_eq_name z _ _ t C). exact H.
-  - right. split; [reflexivity|].
+  - right. split; [exact C|].
     assert (Hne : out <> []) by (intros ->; destruct Hr).
     rewrite (next_of_split apex pre out r post (nsec_closed apex z dk out Hout Hne) E).
     destruct post as [|r' post]; [right; apply Hge; exact Hr|left; exact Hpost].
